@@ -49,9 +49,7 @@ def build_harness():
 
 def build_lean(prop):
     """driver + the property's theorem module; returns (ok, log)."""
-    targets = ["driver"]
-    if os.path.exists(os.path.join(LEAN, "EntraitProofs", prop + ".lean")):
-        targets.append("EntraitProofs." + prop)
+    targets = ["driver", "EntraitProofs"]
     rc, out = sh(["lake", "build"] + targets, cwd=LEAN)
     return rc == 0, out
 
@@ -68,7 +66,7 @@ def audit_axioms(prop, workdir):
     names = theorems_of(prop)
     if not names:
         return {}, "no theorems registered"
-    src = "import EntraitProofs.%s\n" % prop + "".join("#print axioms %s\n" % n for n in names)
+    src = "import EntraitProofs\n" + "".join("#print axioms %s\n" % n for n in names)
     path = os.path.join(workdir, "audit_%s.lean" % prop)
     open(path, "w").write(src)
     rc, out = sh(["lake", "env", "lean", path], cwd=LEAN)
